@@ -102,6 +102,9 @@ RibCallOK(o) == req.active /\ req.end = NoEnd /\ req.ops # <<>> /\ ~call.active 
 \* ... and when the server's own checks demanded that the RPC end with an error instead (C09)
 RibCallFlags(o) == Flag(~RibCallOK(o), "ribCallUnexpected")
                    \cup Flag(req.active /\ req.ops # <<>> /\ HeadOp = o /\ OpPre(HeadOp).k = "err", "ribCallInsteadOfError")
+                   \* history oracle (C04), independent of the adopted election state: an operation that reaches the RIB
+                   \* carries the highest election id validly announced so far in this history
+                   \cup Flag(~o.noeid /\ \E x \in ann : IdLT(o.eid, x), "ribCallStaleId")
 
 TSAddBegin ==
   /\ ~dead /\ IsEvent("addbegin")
